@@ -354,8 +354,8 @@ theorem bodyPart_props (s : St) (p : List Nat) :
     · exact ⟨id, rfl, rfl, rfl, rfl, rfl, rfl, rfl⟩
   obtain ⟨r1, r2, r3, r4, r5, r6, r7, r8⟩ := k1
   simp only []
-  generalize hs2 : (if (decide (p.length > 0) || (s1.handlerDone && s1.trailers.isEmpty)) = true then
-      { s1 with out := s1.out ++ [Frame.data p (s1.handlerDone && s1.trailers.isEmpty)] } else s1) = s2
+  generalize hs2 : (if (decide (p.length > 0) || (s1.handlerDone && !hasNonempty s1)) = true then
+      { s1 with out := s1.out ++ [Frame.data p (s1.handlerDone && !hasNonempty s1)] } else s1) = s2
   have k2 : s2.trailers = s1.trailers ∧ s2.snap = s1.snap ∧ s2.isHead = s1.isHead ∧ s2.handlerDone = s1.handlerDone ∧
       s2.buf = s1.buf ∧ s2.acc = s1.acc ∧ s2.wres = s1.wres ∧ fieldsOf s2.out = fieldsOf s1.out ∧
       bodyOf s2.out = bodyOf s1.out ++ p ∧ s2.hh = s1.hh := by
